@@ -232,6 +232,113 @@ theorem ustreaming_faithful_log (n : Nat) (ds : List BDoc) :
       exact ih _ _ h1 h2
   exact this ds (UStreaming.new n) [] rfl (by simp [UStreaming.new])
 
+/-! ### write faults (seeded change agent6-C17: a flush that resets although its write failed)
+
+The writer may refuse any write (`wok = false`).  `flushW`/`addW` with `wok = true` are `flush`/`add`. -/
+
+theorem flushW_true (c : UStreaming) : c.flushW true = c.flush := by
+  unfold UStreaming.flushW UStreaming.flush
+  split
+  · rfl
+  · split <;> simp
+
+theorem addW_true (c : UStreaming) (d : BDoc) : c.addW d true = c.add d := by
+  unfold UStreaming.addW UStreaming.add; rw [flushW_true]
+
+/-- a refused write changes nothing at all -/
+theorem flushW_refused_noop (c : UStreaming) : (c.flushW false).1 = c := by
+  unfold UStreaming.flushW
+  split
+  · rfl
+  · split <;> simp
+
+theorem flushW_conserves (c : UStreaming) (wok : Bool) (hm : c.inner.metadata = none) :
+    (c.flushW wok).1.written.flatten ++ (c.flushW wok).1.inner.samples = c.written.flatten ++ c.inner.samples ∧
+    (c.flushW wok).1.inner.metadata = none := by
+  cases wok with
+  | true => rw [flushW_true]; exact ⟨streaming_flush_conserves c hm, by rw [flush_keeps_metadata]; exact hm⟩
+  | false => rw [flushW_refused_noop]; exact ⟨rfl, hm⟩
+
+/-- one operation, remembering the accepted documents -/
+def stepF (acc : UStreaming × List BDoc) : UFOp → UStreaming × List BDoc
+  | .add d wok => let r := acc.1.addW d wok; (r.1, if r.2 then acc.2 ++ [d] else acc.2)
+  | .flush wok => ((acc.1.flushW wok).1, acc.2)
+
+theorem stepF_inv (c : UStreaming) (acc : List BDoc) (op : UFOp) (hm : c.inner.metadata = none)
+    (h : c.written.flatten ++ c.inner.samples = acc) :
+    (stepF (c, acc) op).1.inner.metadata = none ∧
+    (stepF (c, acc) op).1.written.flatten ++ (stepF (c, acc) op).1.inner.samples = (stepF (c, acc) op).2 := by
+  cases op with
+  | flush wok =>
+    obtain ⟨h1, h2⟩ := flushW_conserves c wok hm
+    exact ⟨h2, by simp only [stepF]; rw [h1]; exact h⟩
+  | add d wok =>
+    have key : ∀ (c1 : UStreaming), c1.inner.metadata = none → c1.written.flatten ++ c1.inner.samples = acc →
+        (let r := c1.inner.add d
+         let c2 : UStreaming × Bool := if r.2 = .ok then ({ c1 with inner := r.1, count := c1.count + 1 }, true)
+                                       else ({ c1 with inner := r.1 }, false)
+         c2.1.inner.metadata = none ∧ c2.1.written.flatten ++ c2.1.inner.samples = (if c2.2 then acc ++ [d] else acc)) := by
+      intro c1 hm1 h1
+      obtain ⟨a1, a2, a3⟩ := inner_add_log c1.inner d
+      by_cases hok : (c1.inner.add d).2 = .ok
+      · simp only [hok, if_true]
+        refine ⟨by rw [a1]; exact hm1, ?_⟩
+        rw [a2 hok, ← List.append_assoc, h1]
+      · simp only [hok, if_false]
+        refine ⟨by rw [a1]; exact hm1, ?_⟩
+        rw [a3 hok]; simpa using h1
+    simp only [stepF]
+    unfold UStreaming.addW
+    by_cases hfull : c.count ≥ c.maxSamples
+    · simp only [hfull, if_true]
+      obtain ⟨hcons, hmeta⟩ := flushW_conserves c wok hm
+      by_cases hok : (c.flushW wok).2 = true
+      · simp only [hok, Bool.not_true, Bool.false_eq_true, if_false]
+        have := key (c.flushW wok).1 hmeta (by rw [hcons]; exact h)
+        by_cases hacc : ((c.flushW wok).1.inner.add d).2 = .ok <;> simp_all
+      · have hok' : (c.flushW wok).2 = false := by simpa using hok
+        simp only [hok', Bool.not_false, if_true]
+        exact ⟨hmeta, by rw [hcons]; simpa using h⟩
+    · simp only [hfull, if_false, Bool.not_true, Bool.false_eq_true]
+      have := key c hm h
+      by_cases hacc : (c.inner.add d).2 = .ok <;> simp_all
+
+/-- **write faults lose and duplicate nothing**: after any history of `Add`s and flushes in which the writer refuses any
+of the writes, what has been written followed by what is pending is exactly the accepted documents, once each, in order -/
+theorem conservation_under_write_faults (n : Nat) (ops : List UFOp) :
+    let r := ops.foldl stepF (UStreaming.new n, [])
+    r.1.written.flatten ++ r.1.inner.samples = r.2 := by
+  have : ∀ (ops : List UFOp) (c : UStreaming) (acc : List BDoc), c.inner.metadata = none →
+      c.written.flatten ++ c.inner.samples = acc →
+      (ops.foldl stepF (c, acc)).1.written.flatten ++ (ops.foldl stepF (c, acc)).1.inner.samples =
+        (ops.foldl stepF (c, acc)).2 := by
+    intro ops
+    induction ops with
+    | nil => intro c acc _ h; exact h
+    | cons op ops ih =>
+      intro c acc hm h
+      obtain ⟨h1, h2⟩ := stepF_inv c acc op hm h
+      simp only [List.foldl_cons]
+      have e : stepF (c, acc) op = ((stepF (c, acc) op).1, (stepF (c, acc) op).2) := rfl
+      rw [e]
+      exact ih _ _ h1 h2
+  exact this ops (UStreaming.new n) [] rfl (by simp [UStreaming.new])
+
+/-- and once the writer works again, one flush delivers everything: the writer holds exactly the accepted documents -/
+theorem flush_after_faults_delivers_everything (n : Nat) (ops : List UFOp) :
+    ((ops ++ [UFOp.flush true]).foldl stepF (UStreaming.new n, [])).1.inner.samples = [] →
+    ((ops ++ [UFOp.flush true]).foldl stepF (UStreaming.new n, [])).1.written.flatten
+      = ((ops ++ [UFOp.flush true]).foldl stepF (UStreaming.new n, [])).2 := by
+  intro hs
+  have := conservation_under_write_faults n (ops ++ [UFOp.flush true])
+  simp only at this
+  rw [hs, List.append_nil] at this
+  exact this
+
+/-- non-vacuity: a refused full-batch write, then a working one -/
+example : ([UFOp.add .nil true, UFOp.add .nil false, UFOp.flush true].foldl stepF (UStreaming.new 1, [])).1.written.flatten.length = 1
+    ∧ ([UFOp.add .nil true, UFOp.add .nil false, UFOp.flush true].foldl stepF (UStreaming.new 1, [])).2.length = 1 := by decide
+
 /-! non-vacuity -/
 example : Inv ({ batchSize := 2 } : Uncompressed) := ⟨by simp, by simp, by simp⟩
 
